@@ -70,6 +70,14 @@ thread_local! {
 
 /// Whether a set failure flag also makes the PATH stamp route (used by `written_to` only) fail (C05/C06 group).
 pub fn set_stamp_failures(on: bool) { STAMP_FAILS.with(|s| s.set(on)); }
+thread_local! {
+  static DECL_DIRECT: StdCell<bool> = StdCell::new(false);
+  static PENDING_DIRECT: StdCell<Option<(Rid, u8)>> = StdCell::new(None);
+}
+/// Whether declared writes bypass `create_writer`: the task "produces the file by other means" and only declares it
+/// with `written_to`. The harness makes the content appear when `written_to` stamps the resource (the path stamp
+/// route is used by `written_to` only), so pie never sees a writer being created.
+pub fn set_decl_direct(on: bool) { DECL_DIRECT.with(|s| s.set(on)); PENDING_DIRECT.with(|p| p.set(None)); }
 
 /// Nesting depth of require/check operations as seen by the recording tracker: bounds recursion that does not pass
 /// through task executions (cyclic validation), so that a missed cycle is a verdict instead of a stack overflow.
@@ -188,6 +196,14 @@ impl ResourceChecker<VRes> for RCh {
 
   fn stamp<RS: ResourceState<VRes>>(&self, resource: &VRes, state: &mut RS) -> Result<RStamp, VErr> {
     let w = state.get_or_set_default_mut::<World>();
+    if let Some((r, v)) = PENDING_DIRECT.with(|p| p.take()) {
+      if r == resource.0 {
+        w.serial += 1;
+        log(Ev::ResWrite(r, w.serial));
+        w.cells[r as usize] = Some(v);
+        log(Ev::Store(r, w.serial, v));
+      }
+    }
     if self.0 == RC::Faulty && w.fail[resource.0 as usize] && STAMP_FAILS.with(|s| s.get()) {
       // the path route is only used by `written_to`: an injected failure of the stamp at declaration time
       return Err(VErr(format!("injected failure stamping r{}", resource.0)));
@@ -277,7 +293,16 @@ impl<C: Context> Env for RealEnv<'_, C> {
 
   fn write(&mut self, caller: Tid, stmt: usize, r: Rid, value: u8, rc: RC, declared: bool) -> Result<(), ()> {
     log(Ev::CallWrite(caller, stmt, r, rc, declared));
-    if declared {
+    if declared && DECL_DIRECT.with(|d| d.get()) {
+      tick(caller);
+      PENDING_DIRECT.with(|p| p.set(Some((r, value))));
+      let result = self.ctx.written_to(&VRes(r), RCh(rc));
+      PENDING_DIRECT.with(|p| p.set(None));
+      if let Err(_e) = result {
+        log(Ev::RetWriteErr(caller, stmt, r));
+        return Ok(());
+      }
+    } else if declared {
       let res = VRes(r);
       {
         let mut writer = match self.ctx.create_writer(&res) {
